@@ -695,8 +695,11 @@ class Engine:
                                 if x2 is not None:
                                     st = x2
                         return st
-                if x[0] == "call" and x[2].startswith("hashbrown::") and x[2].endswith("::len") and x[3] and table_of(x[3][0]) is not None:
+                if x[0] == "call" and x[2].startswith("hashbrown::") and x[2].endswith("::len") and x[3]:
                     tb = table_of(x[3][0])
+                    is_loc = tb is None
+                    if is_loc:
+                        tb = ("loc", mk_deref(x[3][0]))     # a map that is a local of the function (the trace's result)
                     cls = classes_for(op, y[1], truth)
                     val_empty = None
                     if cls == frozenset("Z"):
@@ -716,6 +719,16 @@ class Engine:
                                 x2 = h(self, st, tb, val_empty, b)
                                 if x2 is not None:
                                     st = x2
+                        if is_loc:
+                            # same meaning as `map.is_empty()` evaluating to val_empty
+                            for r in self.rules:
+                                h = getattr(r, "on_assume_call", None)
+                                if h:
+                                    x2 = h(self, st, ("call", x[1], x[2][: -len("len")] + "is_empty", x[3]), val_empty, b)
+                                    if x2 is False:
+                                        return None
+                                    if x2 is not None:
+                                        st = x2
                     return st
             # comparison of an enum discriminant with a constant (derived PartialEq on field-less enums)
             if op in ("Eq", "Ne") and is_const(y) and x[0] == "discr":
@@ -1043,6 +1056,10 @@ class Engine:
             return evs, True
         if d in ("core::ptr::eq",):
             A("ptr_eq", a=args[0], b_=args[1])
+            return evs, False
+        if d in ("core::cmp::PartialEq::eq", "core::cmp::PartialEq::ne") and len(args) == 2 and (callee.get("self_ty") or {}).get("adt") == "core::ptr::NonNull" \
+                and (callee.get("self_ty") or {}).get("peel", 0) == 0:
+            A("ptr_eq", a=mk_deref(args[0]), b_=mk_deref(args[1]))
             return evs, False
         # ---- vectors / collections of the trace and teardown
         if d.startswith("alloc::vec::Vec::<T") or d.startswith("alloc::collections::VecDeque::<T"):
